@@ -6,7 +6,7 @@ META = {
     "technique": "Lean 4: the connection is a byte list followed by EOF, a response frame announces sz bytes; byte conservation of every parser program (mutual induction over all programs, including whatever the go/ast translator regenerates) gives the generic lemma 'a computation that ends with the frame counter at 0 consumed sz bytes, so it cannot on a stream holding fewer'; instantiated for every (*Conn).do operation, for ReadBatchWith/Batch over any byte-conserving message-set reader, and for protocol.ReadResponse under its discardAll contract; Transport connection pool as an LTS with trace acceptance; differential correspondence: Client/Writer over a real kafka.Transport and a Reader over a real Dialer against a stateful fake broker with per-connection journals (response cut at byte k, follow-up calls must succeed on a new connection), the real Conn over net.Pipe with the scripted broker delivering exactly k bytes, and protocol.ReadResponse on every registered response type x version x cut position through three reader kinds, against the compiled Lean oracle",
     "level_claimed": {
         "category": "proof",
-        "text": "Kernel-checked for every cut position and EVERY byte content: a (*Conn).do operation whose response stream ends inside the size prefix, the correlation id or the body returns a non-kafka error and the Conn is closed (cut_is_error, cut_in_header_is_error), after which every operation fails (C11.closed_stays_failed, dead_stream_fails); the same anywhere in a run of any number of operations: those answered completely before the cut give what each gives alone on a fresh connection, the cut one fails and closes, all later ones fail (cut_in_sequence, over C11.sequence_aligned); the un-framed sasl token exchange likewise (raw_token_cut_is_error); fetch on a cut stream, however far the batch was read before Close: a non-kafka error and the Conn closed (fetch_cut_is_error, every byte-conserving message-set reader; since the fix C02-D33 of Batch.close — regenerated fact batchCloseMindsDiscard) and inside the message set the C02 decoder model neither panics nor desynchronises and hands out exactly the completely received records (fetch_cut_no_panic). protocol.ReadResponse: the Decoder contract is PROVED for the structural decoder model of C04 (frame accounting for every schema: da_all; readResponse_ok_consumes_frame; readResponse_cut_is_error_structural: every strict prefix of a frame, every schema, no message). Transport connections: LTS over the existing T.* hook points, parameterised by a regenerated fact of (*conn).run; for ALL accepted event sequences a failed connection is never grabbed/served/released again and the next request runs on another one (failed_conn_never_reused, resume_after_cut), tied by trace acceptance. Reader: for every well-formed log, every start offset and every interleaving of complete rounds and rounds lost after any number of bytes, the delivered stream is exactly the log between start and final position — no loss, duplicate or reordering (reader_resume_after_cut, composed with C02's fetch_round/single_fetch and ReaderLoop). Writer: composed with C01 (writer_resume_after_cut). Split requests: a lost part fails a strict merge (mergeStrict_ok, lost_part_fails_call, regenerated strictMerges), ListOffsets via C19's model. Not proved (partial): 'blocks beyond its deadline' and progress of the follow-up (runtime, observed under watchdogs; the lock-release facts that rule out blocking on rlock are proved in C11).",
+        "text": "Kernel-checked for every cut position and EVERY byte content: a (*Conn).do operation whose response stream ends inside the size prefix, the correlation id or the body returns a non-kafka error and the Conn is closed (cut_is_error, cut_in_header_is_error), after which every operation fails (C11.closed_stays_failed, dead_stream_fails); what a Writer retry puts on the wire is the batch again (retry_carries_the_batch over the regenerated fact retryRebuildsRecords) and every read of the Reader's fetch, Batch.Close's skip included, happens under an armed deadline (reader_fetch_returns, armed_reads_return over readerClosesUnderDeadline); the same anywhere in a run of any number of operations: those answered completely before the cut give what each gives alone on a fresh connection, the cut one fails and closes, all later ones fail (cut_in_sequence, over C11.sequence_aligned); the un-framed sasl token exchange likewise (raw_token_cut_is_error); fetch on a cut stream, however far the batch was read before Close: a non-kafka error and the Conn closed (fetch_cut_is_error, every byte-conserving message-set reader; since the fix C02-D33 of Batch.close — regenerated fact batchCloseMindsDiscard) and inside the message set the C02 decoder model neither panics nor desynchronises and hands out exactly the completely received records (fetch_cut_no_panic). protocol.ReadResponse: the Decoder contract is PROVED for the structural decoder model of C04 (frame accounting for every schema: da_all; readResponse_ok_consumes_frame; readResponse_cut_is_error_structural: every strict prefix of a frame, every schema, no message). Transport connections: LTS over the existing T.* hook points, parameterised by a regenerated fact of (*conn).run; for ALL accepted event sequences a failed connection is never grabbed/served/released again and the next request runs on another one (failed_conn_never_reused, resume_after_cut), tied by trace acceptance. Reader: for every well-formed log, every start offset and every interleaving of complete rounds and rounds lost after any number of bytes, the delivered stream is exactly the log between start and final position — no loss, duplicate or reordering (reader_resume_after_cut, composed with C02's fetch_round/single_fetch and ReaderLoop). Writer: composed with C01 (writer_resume_after_cut). Split requests: a lost part fails a strict merge (mergeStrict_ok, lost_part_fails_call, regenerated strictMerges), ListOffsets via C19's model. Not proved (partial): 'blocks beyond its deadline' and progress of the follow-up (runtime, observed under watchdogs; the lock-release facts that rule out blocking on rlock are proved in C11).",
         "design_ref": "DESIGN.md §7 C17",
     },
     "level_note": "Trusted: as C11 (kernel, translator, hand transcription of the conn.go closures and of do/waitResponse/Batch.close, bufio/net.Conn model where a lost connection = EOF after k bytes). protocol/decode.go: the discardAll contract used here is PROVED for the C04 builder's structural decoder model (Lemmas/CodecAcct.lean) and sampled on every registered API version. message_reader.go is abstracted to 'any byte-conserving reader'. Frames for the Transport path are produced by protocol.WriteResponse from reflectively filled messages (the encoder is C04's subject); compressed payload decoders are the real libraries. Deadlines/blocking are observed, not proved.",
